@@ -64,12 +64,18 @@ fn signer(name: &str, sec: &str, alg: TsigAlgorithm) -> TSigner {
 }
 
 struct World {
+    /// the in-memory handler when the catalog serves it directly (store = "memory")
+    memory: Option<Arc<InMemoryZoneHandler<TokioRuntimeProvider>>>,
     handler: Arc<SqliteZoneHandler<TokioRuntimeProvider>>,
     catalog: Catalog,
     origin: Name,
 }
 
 fn world(allow_update: bool, axfr: &str) -> World {
+    world_on(allow_update, axfr, "sqlite")
+}
+
+fn world_on(allow_update: bool, axfr: &str, store: &str) -> World {
     let origin = Name::from_str("example.").unwrap();
     let policy = match axfr {
         "deny" => AxfrPolicy::Deny,
@@ -77,18 +83,29 @@ fn world(allow_update: bool, axfr: &str) -> World {
         "signed" => AxfrPolicy::AllowSigned,
         o => panic!("axfr policy {o}"),
     };
-    // like SqliteZoneHandler::try_from_config: the inner handler allows transfers, the outer applies the policy
-    let mut mem = InMemoryZoneHandler::<TokioRuntimeProvider>::empty(origin.clone(), ZoneType::Primary, AxfrPolicy::AllowAll, None);
+    // like SqliteZoneHandler::try_from_config: the inner handler allows transfers, the outer applies the policy;
+    // a zone served by the in-memory handler alone applies the policy itself
+    let inner_policy = if store == "memory" { policy } else { AxfrPolicy::AllowAll };
+    let mut mem = InMemoryZoneHandler::<TokioRuntimeProvider>::empty(origin.clone(), ZoneType::Primary, inner_policy, None);
     let ns = Name::from_str("ns.example.").unwrap();
     mem.upsert_mut(Record::from_rdata(origin.clone(), 3600, RData::SOA(SOA::new(ns.clone(), Name::from_str("admin.example.").unwrap(), 1, 3600, 600, 86400, 300))), 1);
     mem.upsert_mut(Record::from_rdata(origin.clone(), 3600, RData::NS(NS(ns.clone()))), 1);
     mem.upsert_mut(Record::from_rdata(ns, 3600, RData::A(A::new(192, 0, 2, 53))), 1);
+    if store == "memory" {
+        // the handle kept for observation is an (unused) sqlite wrapper around an empty copy; the
+        // catalog serves the in-memory handler itself
+        let served = Arc::new(mem);
+        let mut catalog = Catalog::new();
+        catalog.upsert(LowerName::new(&origin), vec![served.clone() as Arc<dyn ZoneHandler>]);
+        let shadow = InMemoryZoneHandler::<TokioRuntimeProvider>::empty(origin.clone(), ZoneType::Primary, AxfrPolicy::Deny, None);
+        return World { handler: Arc::new(SqliteZoneHandler::new(shadow, AxfrPolicy::Deny, false, false)), catalog, origin, memory: Some(served) };
+    }
     let mut h = SqliteZoneHandler::new(mem, policy, allow_update, false);
     h.set_tsig_signers(vec![signer("k1", "k1", TsigAlgorithm::HmacSha256), signer("k2", "k2", TsigAlgorithm::HmacSha256)]);
     let handler = Arc::new(h);
     let mut catalog = Catalog::new();
     catalog.upsert(LowerName::new(&origin), vec![handler.clone() as Arc<dyn ZoneHandler>]);
-    World { handler, catalog, origin }
+    World { handler, catalog, origin, memory: None }
 }
 
 // ------------------------------------------------------------------------------------------
@@ -247,7 +264,14 @@ fn build(op: &str, r: &Value, origin: &Name, uniq: u32) -> Built {
         (m, Some(owner))
     } else {
         let mut m = Message::new(id, MessageType::Query, OpCode::Query);
-        m.add_query(Query::new(origin.clone(), RecordType::AXFR));
+        if op == "ixfr" {
+            // RFC 1995: the client's current SOA travels in the authority section
+            m.add_query(Query::new(origin.clone(), RecordType::IXFR));
+            let ns = Name::from_str("ns.example.").unwrap();
+            m.add_authority(Record::from_rdata(origin.clone(), 3600, RData::SOA(SOA::new(ns, Name::from_str("admin.example.").unwrap(), 0, 3600, 600, 86400, 300))));
+        } else {
+            m.add_query(Query::new(origin.clone(), RecordType::AXFR));
+        }
         (m, None)
     };
     let mut verifier = None;
@@ -341,6 +365,14 @@ struct Outcome {
 }
 
 async fn serial_and_has(w: &World, marker: Option<&Name>) -> (u32, bool) {
+    if let Some(m) = &w.memory {
+        let serial = m.serial().await;
+        let has = match marker {
+            Some(n) => m.records().await.contains_key(&RrKey::new(LowerName::new(n), RecordType::A)),
+            None => false,
+        };
+        return (serial, has);
+    }
     let serial = w.handler.serial().await;
     let has = match marker {
         Some(n) => w.handler.records().await.contains_key(&RrKey::new(LowerName::new(n), RecordType::A)),
@@ -449,8 +481,9 @@ fn main() {
                 }
                 let c: Value = serde_json::from_str(&line).expect("case");
                 let (r, p) = (&c["r"], &c["p"]);
-                let key = format!("{}-{}", p["allowUpdate"], p["axfr"]);
-                let w = worlds.entry(key).or_insert_with(|| world(p["allowUpdate"].as_bool().unwrap(), p["axfr"].as_str().unwrap()));
+                let store = p["store"].as_str().unwrap_or("sqlite");
+                let key = format!("{}-{}-{}", p["allowUpdate"], p["axfr"], store);
+                let w = worlds.entry(key).or_insert_with(|| world_on(p["allowUpdate"].as_bool().unwrap(), p["axfr"].as_str().unwrap(), store));
                 uniq += 1;
                 let op = r["op"].as_str().unwrap();
                 let mut b = build(op, r, &w.origin, uniq);
@@ -492,8 +525,12 @@ fn main() {
             let mut rng = StdRng::seed_from_u64(seed);
             let mut uniq = 1_000_000u32;
             for case in 0..n_cases {
-                let op = if case % 3 == 2 { "axfr" } else { "update" };
-                let p = json!({"allowUpdate": true, "axfr": "signed", "fudge": FUDGE});
+                let op = match case % 4 {
+                    2 => "axfr",
+                    3 => "ixfr",
+                    _ => "update",
+                };
+                let p = json!({"allowUpdate": true, "axfr": "signed", "fudge": FUDGE, "store": "sqlite"});
                 let mut w = world(true, "signed");
                 let kn = if rng.random_bool(0.5) { "k1" } else { "k2" };
                 let dt: i64 = rng.random_range(-(FUDGE as i64 - 1)..=(FUDGE as i64 - 1));
